@@ -54,14 +54,30 @@ var drivers = []driver{
 		infinite: true, wantOut: "int:7", reset: map[string]interface{}{"spin": false}},
 	{name: "bodyless-loop-in-func", src: "out := 0; f := func() { for {} }; if spin { f() }; out = 7", inputs: map[string]interface{}{"spin": true},
 		infinite: true, wantOut: "int:7", reset: map[string]interface{}{"spin": false}},
-	{name: "terminating", src: "out := a + 1", inputs: map[string]interface{}{"a": 41}, wantOut: "int:42", reset: map[string]interface{}{"a": 41}},
-	{name: "native-call", src: "out := len(arr) + a", inputs: map[string]interface{}{"arr": []interface{}{1, 2}, "a": 40}, wantOut: "int:42", reset: map[string]interface{}{"a": 40}},
+	// (the second run gets a different input: a run that executes nothing would leave the first run's result)
+	{name: "terminating", src: "out := a + 1", inputs: map[string]interface{}{"a": 6}, wantOut: "int:42", reset: map[string]interface{}{"a": 41}},
+	{name: "native-call", src: "out := len(arr) + a", inputs: map[string]interface{}{"arr": []interface{}{1, 2}, "a": 5}, wantOut: "int:42", reset: map[string]interface{}{"a": 40}},
+	// the loop's instructions carry operand bytes of every small value (global #41 = the SUSPEND opcode's number):
+	// whatever the VM decides by looking at the byte under its instruction pointer must not depend on them
+	{name: "operand-sweep-loop", src: operandSweep(44), inputs: map[string]interface{}{"spin": true},
+		infinite: true, wantOut: "int:7", reset: map[string]interface{}{"spin": false}},
 	{name: "runtime-error", src: "out := a + \"x\"", inputs: map[string]interface{}{"a": 1}, wantOut: "", reset: map[string]interface{}{"a": 1}},
 	// a host function that panics (with an error, a string, any other value): the call must still return, whatever the cancellation instant
 	{name: "host-panic-error", src: "out := hp(a)", inputs: map[string]interface{}{"a": 1, "hp": panicker(errors.New("boom"))}, wantOut: "", reset: map[string]interface{}{"a": 1}},
 	{name: "host-panic-string", src: "out := hp(a)", inputs: map[string]interface{}{"a": 1, "hp": panicker("boom")}, wantOut: "", reset: map[string]interface{}{"a": 1}},
 	{name: "host-panic-struct", src: "out := hp(a)", inputs: map[string]interface{}{"a": 1, "hp": panicker(struct{ code int }{7})}, wantOut: "", reset: map[string]interface{}{"a": 1}},
 	{name: "host-panic-in-loop", src: "out := 0; for i := 0; i < 2; i++ { if i == 1 { out = hp(i) } }", inputs: map[string]interface{}{"hp": panicker(42)}, wantOut: "", reset: map[string]interface{}{}},
+}
+
+// operandSweep: n globals; the loop stores to the last four of them
+func operandSweep(n int) string {
+	var sb strings.Builder
+	sb.WriteString("out := 0; ")
+	for i := 0; i < n; i++ {
+		fmt.Fprintf(&sb, "g%d := 0; ", i)
+	}
+	fmt.Fprintf(&sb, "for spin { g%d = 1; g%d = 1; g%d = 1; g%d = 1 }; out = 7", n-4, n-3, n-2, n-1)
+	return sb.String()
 }
 
 func panicker(v interface{}) tengo.Object {
@@ -260,7 +276,8 @@ func (w *world) atReturn(what string) {
 
 func (w *world) vmKey(info *vmInfo) string {
 	if info.thread >= 0 && w.s.ThreadDone(info.thread) {
-		return "vm-done"
+		// the flag of a finished VM is kept: it matters as soon as VM objects are recycled
+		return fmt.Sprintf("vm-done ab=%d", info.v.VerifAborting())
 	}
 	v := info.v
 	fn, ip, sp, bp, fi := v.VerifState()
